@@ -124,6 +124,13 @@ def run(ctx):
     for _ in range(8 if quick else 120):
         pts, fam = rdpfam.bytecount_curve(rng)
         chain(ctx, pts, dict(dist='perpendicular', order=rng.choice(rdpfam.ORDERS), int_dtype=True), fam)
+    for _ in range(30 if quick else 500):
+        # strongly NON-MONOTONE (oscillating) curves with the point-to-SEGMENT distance: the farthest point of a retained segment often projects
+        # beyond a chord end, where segment distance and perpendicular height differ - every ordering score must use the selected distance
+        n = rng.randrange(10, 26)
+        xs = np.cumsum([rng.choice([1, 1, 2, 3]) for _ in range(n)]).astype(float)
+        ys = np.array([(rng.randrange(8, 20) if i % 2 else rng.randrange(0, 6)) * rng.choice([1.0, 0.5]) for i in range(n)])
+        chain(ctx, np.column_stack([xs, ys]), dict(dist='shortest', order=rng.choice(['triangle', 'triangle', 'area', 'segment'])), 'oscillating')
     for _ in range(1 if quick else 12):
         # a LONG curve (beyond 1024 / 4096 points), the first few dozen sizes: sub-sampled, chunked or capped distance scans pick another point
         pts, fam = rdpfam.long_curve(rng)
